@@ -175,14 +175,14 @@ theorem latestFp_spec (uo : UoKind) (name : Nat) :
     interleaving with other workers and runs: between reading the fingerprint
     and fetching, no operation of that name can be stored (mutual exclusion). -/
 theorem fetch_gets_latest_fp (env : Env) (hist : List Op) (evs : List Ev) (r i g : Nat) (prev : Fp)
-    (h : (reach env hist evs).pc r i = .gotOps g prev) :
+    (hgc : i ≠ env.gcInst) (h : (reach env hist evs).pc r i = .gotOps g prev) :
     prev = latestFp (reach env hist evs).ops (env.upd i).kind.uo (env.upd i).name ∧
     ∃ res fp, (step env (reach env hist evs) (.fetch r i)).2 =
       .fetch ((env.upd i).kind == .enrich)
         (latestFp (reach env hist evs).ops (env.upd i).kind.uo (env.upd i).name) res fp := by
   have hp := (inv_run env hist evs).d.prev r i g prev h
   refine ⟨hp, ?_⟩
-  simp only [step, h]
+  simp only [step, h, hgc, if_false]
   rw [← hp]
   split <;> exact ⟨_, _, rfl⟩
 
@@ -214,7 +214,7 @@ theorem running_holds_lock (env : Env) (hist : List Op) (evs : List Ev) (r i : N
 
 /-- One worker's step — failing or not — leaves every other worker's program
     state and recorded store calls untouched. -/
-theorem other_workers_untouched (env : Env) (s : State) (ev : Ev) (r i : Nat) (h : ev.worker ≠ some (r, i)) :
+theorem other_workers_untouched (env : Env) (s : State) (ev : Ev) (r i : Nat) (h : ev.worker env ≠ some (r, i)) :
     (step env s ev).1.pc r i = s.pc r i ∧ callsOf (step env s ev).1 r i = callsOf s r i :=
   ⟨pc_frame env s ev r i h, calls_frame env s ev r i h⟩
 
@@ -236,18 +236,18 @@ theorem launch_enabled_iff (env : Env) (s : State) (r : Nat) :
     · intro h; exact absurd h.1 (hne)
 
 /-- An updater whose name is free and whose run is not cancelled is driven. -/
-theorem free_name_is_driven (env : Env) (s : State) (r i : Nat) (hidle : s.pc r i = .idle)
-    (hin : i ∈ env.toRun r) (hl : (s.run r).tried.length < (s.run r).launchedN)
+theorem free_name_is_driven (env : Env) (s : State) (r i : Nat) (hgc : i ≠ env.gcInst)
+    (hidle : s.pc r i = .idle) (hin : i ∈ env.toRun r) (hl : (s.run r).tried.length < (s.run r).launchedN)
     (hfree : (env.upd i).name ∉ s.locks.held) (hlive : dead s r = false) :
     (step env s (.tryLock r i)).2 = .lock true true ∧
     (step env s (.tryLock r i)).1.pc r i = .locked s.locks.issued := by
-  simp [step, hidle, hin, hl, hfree, hlive]
+  simp [step, hgc, hidle, hin, hl, hfree, hlive]
 
 /-- A configured updater is skipped because of the lock exactly when, at that
     moment, a worker of an updater with the same name (of this or of a
     concurrent run) holds it. -/
 theorem skipped_iff_same_name_holder (env : Env) (hist : List Op) (evs : List Ev) (r i : Nat)
-    (hidle : (reach env hist evs).pc r i = .idle) (hin : i ∈ env.toRun r)
+    (hgc : i ≠ env.gcInst) (hidle : (reach env hist evs).pc r i = .idle) (hin : i ∈ env.toRun r)
     (hlt : ((reach env hist evs).run r).tried.length < ((reach env hist evs).run r).launchedN) :
     (step env (reach env hist evs) (.tryLock r i)).2 = .lock false false ↔
       ∃ r' i' g, ((reach env hist evs).pc r' i').holds = some g ∧ (env.upd i').name = (env.upd i).name := by
@@ -265,33 +265,42 @@ theorem skipped_iff_same_name_holder (env : Env) (hist : List Op) (evs : List Ev
       exact List.mem_map.2 ⟨_, hl.grant r' i' g hg, hn⟩
   rw [← hheld]
   by_cases hk : (env.upd i).name ∈ s.locks.held
-  · simp [step, hidle, hin, hlt, hk]
-  · by_cases hd : dead s r = true <;> simp [step, hidle, hin, hlt, hk, hd]
+  · simp [step, hgc, hidle, hin, hlt, hk]
+  · by_cases hd : dead s r = true <;> simp [step, hgc, hidle, hin, hlt, hk, hd]
 
 /-! ### the returned error, waiting, parallelism, cancellation -/
 
 /-- `Run` returns the instances whose driveUpdater failed — all of them and
-    only them: every started worker has finished by then. -/
+    only them: every started worker has finished by then.  (`Run` returns from
+    `drained` when no retention is configured, else after its GC section.) -/
 theorem error_names_failed (env : Env) (hist : List Op) (evs : List Ev) (r : Nat)
-    (hd : ((reach env hist evs).run r).pc = .drained) :
+    (hd : (((reach env hist evs).run r).pc = .drained ∧ env.gc r = false) ∨
+          ((reach env hist evs).run r).pc = .gcOver) :
     (step env (reach env hist evs) (.ret r)).2 = .ret ((reach env hist evs).run r).errs ∧
     (∀ i, i ∈ ((reach env hist evs).run r).errs ↔
         ∃ res, (reach env hist evs).pc r i = .finished (some res) ∧ res.failed = true) ∧
-    (∀ i, (reach env hist evs).pc r i = .idle ∨ ((reach env hist evs).pc r i).isFinished = true) := by
+    (∀ i, i ≠ env.gcInst →
+      (reach env hist evs).pc r i = .idle ∨ ((reach env hist evs).pc r i).isFinished = true) := by
   have hr : InvR env (reach env hist evs) := (inv_run env hist evs).r
   generalize reach env hist evs = s at hd hr ⊢
-  refine ⟨by simp [step, hd], hr.errs r, ?_⟩
-  intro i
-  have hq := hr.quiet r (by rw [hd]; rfl)
+  have hdr : (s.run r).pc.isDrained = true := by
+    rcases hd with hd | hd <;> simp [hd, RunPc.isDrained]
+  refine ⟨?_, hr.errs r, ?_⟩
+  · rcases hd with hd | hd
+    · simp [step, hd.1, hd.2]
+    · simp [step, hd]
+  intro i hgc
+  have hq := hr.quiet r hdr
   have hc := hr.count r
   by_cases hi : i ∈ (s.run r).tried
   · right
     exact all_finished_of_unfinished_zero (by omega) i hi
-  · left; exact (hr.idle r i).2 hi
+  · left; exact (hr.idle r i hgc).2 hi
 
 /-- `Run` returns only from the state reached after the final semaphore
-    acquisition. -/
-theorem ret_needs_drained (env : Env) (s : State) (r : Nat) (h : (s.run r).pc ≠ .drained) :
+    acquisition (and, with retention configured, after its GC section). -/
+theorem ret_needs_drained (env : Env) (s : State) (r : Nat) (h : (s.run r).pc ≠ .drained)
+    (h' : (s.run r).pc ≠ .gcOver) :
     step env s (.ret r) = (s, .bad) := by
   cases hp : (s.run r).pc <;> simp_all [step]
 
@@ -302,24 +311,26 @@ theorem run_waits_for_all (env : Env) (hist : List Op) (evs : List Ev) (r : Nat)
     (hd : ((reach env hist evs).run r).pc.isDrained = true) :
     ((reach env hist evs).run r).inflight = 0 ∧
     ((reach env hist evs).run r).tried.length = ((reach env hist evs).run r).launchedN ∧
-    ∀ i, (reach env hist evs).pc r i = .idle ∨ ((reach env hist evs).pc r i).isFinished = true := by
+    ∀ i, i ≠ env.gcInst →
+      (reach env hist evs).pc r i = .idle ∨ ((reach env hist evs).pc r i).isFinished = true := by
   have hr : InvR env (reach env hist evs) := (inv_run env hist evs).r
   generalize reach env hist evs = s at hd hr ⊢
   have hq := hr.quiet r hd
   have hc := hr.count r
   have hl := hr.triedLe r
   refine ⟨hq, by omega, ?_⟩
-  intro i
+  intro i hgc
   by_cases hi : i ∈ (s.run r).tried
   · right; exact all_finished_of_unfinished_zero (by omega) i hi
-  · left; exact (hr.idle r i).2 hi
+  · left; exact (hr.idle r i hgc).2 hi
 
 /-- A finished worker never moves again: no store call of a run is made after
     the run has returned. -/
 theorem finished_is_final (env : Env) (s : State) (ev : Ev) (r i : Nat) (res : Option Res)
     (h : s.pc r i = .finished res) : (step env s ev).1.pc r i = .finished res := by
-  by_cases hw : ev.worker = some (r, i)
-  · cases ev <;> simp [Ev.worker] at hw <;> obtain ⟨rfl, rfl⟩ := hw <;> simp [step, h]
+  by_cases hw : ev.worker env = some (r, i)
+  · cases ev <;> simp [Ev.worker] at hw <;> obtain ⟨rfl, rfl⟩ := hw <;> simp [step, h] <;>
+      (try split) <;> simp_all
   · rw [pc_frame env s ev r i hw, h]
 
 /-- At most `batchSize` updaters of a run are in flight. -/
@@ -385,11 +396,11 @@ theorem all_configured_run (env : Env) (hist : List Op) (evs : List Ev) (r : Nat
   exact all_finished_of_unfinished_zero (by omega) i hin
 
 /-- Only configured updaters are run, each at most once per run. -/
-theorem only_configured_run (env : Env) (hist : List Op) (evs : List Ev) (r i : Nat)
+theorem only_configured_run (env : Env) (hist : List Op) (evs : List Ev) (r i : Nat) (hgc : i ≠ env.gcInst)
     (h : (reach env hist evs).pc r i ≠ .idle) : i ∈ env.toRun r := by
   have hr : InvR env (reach env hist evs) := (inv_run env hist evs).r
   apply hr.sub r i
-  exact Decidable.byContradiction fun hn => h ((hr.idle r i).2 hn)
+  exact Decidable.byContradiction fun hn => h ((hr.idle r i hgc).2 hn)
 
 /-! ### from factories to the updaters of a run -/
 
@@ -413,19 +424,55 @@ theorem plan_mem (name : Nat → Nat) (cfgOk : Nat → Bool) (facs : List Fac) (
 theorem same_name_second_skipped_counterexample :
     let u : Upd := { name := 7, kind := .plain, getOk := fun _ => true, fetch := fun _ _ => (.ok, 1),
                      parse := fun _ => some ⟨[1], []⟩, storeOk := fun _ => true }
-    let env : Env := { upd := fun _ => u, batch := fun _ => 2, toRun := fun _ => [0, 1], stubSets := fun _ => 0 }
+    let env : Env := { upd := fun _ => u, batch := fun _ => 2, toRun := fun _ => [0, 1], stubSets := fun _ => 0,
+                       gc := fun _ => false, gcInst := 99 }
     let evs : List Ev := [.begin 0, .acquire 0, .launch 0, .acquire 0, .launch 0, .tryLock 0 0, .tryLock 0 1,
       .done 0 1, .getOps 0 0, .fetch 0 0, .parse 0 0, .store 0 0, .status 0 0, .done 0 0, .wait 0, .drained 0, .ret 0]
     (reach env [] evs).pc 0 1 = .finished none ∧ (reach env [] evs).pc 0 0 = .finished (some (.stored (.vulns 7 1 [1]))) ∧
     ((reach env [] evs).run 0).pc = .returned ∧ ((reach env [] evs).run 0).errs = [] := by
   decide
 
+/-- Finding `gc-lock-name-collision`: the GC section of `Run` takes its lock
+    from the updaters' key space.  An updater whose name is that key is skipped
+    — not fetched, no error — while a concurrent `Run` is in its GC section,
+    although the only other updater of that name finished long ago. -/
+theorem gc_lock_collision_counterexample :
+    let u : Upd := { name := 1, kind := .plain, getOk := fun _ => true, fetch := fun _ _ => (.ok, 1),
+                     parse := fun _ => some ⟨[1], []⟩, storeOk := fun _ => true }
+    let env : Env := { upd := fun _ => u, batch := fun _ => 2, toRun := fun _ => [0], stubSets := fun _ => 0,
+                       gc := fun _ => true, gcInst := 99 }
+    let before : List Ev := [.begin 0, .acquire 0, .launch 0, .tryLock 0 0, .getOps 0 0, .fetch 0 0, .parse 0 0,
+      .store 0 0, .status 0 0, .done 0 0, .wait 0, .drained 0, .gcTry 0, .begin 1, .acquire 1, .launch 1]
+    let after : List Ev := [.tryLock 1 0, .done 1 0, .wait 1, .drained 1, .gcTry 1, .gcDone 1, .ret 1,
+      .gc 0, .gcDone 0, .ret 0]
+    (reach env [] before).pc 0 0 = .finished (some (.stored (.vulns 1 1 [1]))) ∧
+    (reach env [] before).pc 0 99 = .locked 1 ∧
+    (step env (reach env [] before) (.tryLock 1 0)).2 = .lock false false ∧
+    (reach env [] (before ++ after)).pc 1 0 = .finished none ∧
+    ((reach env [] (before ++ after)).run 1).pc = .returned ∧
+    ((reach env [] (before ++ after)).run 1).errs = [] := by
+  decide
+
+/-- The store's GC is called only by a run that holds the garbage-collection
+    lock with a live context, and (see `run_waits_for_all`: `inGc` counts as
+    drained) only after every updater of that run has finished. -/
+theorem gc_call_needs_lock (env : Env) (s : State) (r : Nat) (h : (step env s (.gc r)).2 = .ok) :
+    (s.run r).pc = .inGc ∧ ∃ g, s.pc r env.gcInst = .locked g := by
+  simp only [step] at h
+  split at h
+  · rename_i hpc
+    split at h
+    · rename_i g hg; exact ⟨hpc, g, hg⟩
+    · cases h
+  · cases h
+
 /-- A cancelled run returns no error for the updaters it never started:
     `Run` reports failures of driveUpdater only. -/
 theorem cancelled_run_returns_nil_counterexample :
     let u : Upd := { name := 7, kind := .plain, getOk := fun _ => true, fetch := fun _ _ => (.ok, 1),
                      parse := fun _ => some ⟨[1], []⟩, storeOk := fun _ => true }
-    let env : Env := { upd := fun _ => u, batch := fun _ => 2, toRun := fun _ => [0, 1], stubSets := fun _ => 0 }
+    let env : Env := { upd := fun _ => u, batch := fun _ => 2, toRun := fun _ => [0, 1], stubSets := fun _ => 0,
+                       gc := fun _ => false, gcInst := 99 }
     let evs : List Ev := [.cancel 0, .begin 0, .acquire 0, .wait 0, .drained 0]
     (step env (reach env [] evs) (.ret 0)).2 = .ret [] ∧ (reach env [] evs).pc 0 0 = .idle := by
   decide
@@ -438,7 +485,8 @@ example :
                         parse := fun _ => some ⟨[1, 2], [3]⟩, storeOk := fun _ => true }
     let bad : Upd := { good with name := 3, parse := fun _ => none }
     let env : Env := { upd := fun i => if i = 0 then good else bad, batch := fun _ => 1,
-                       toRun := fun _ => [0, 1], stubSets := fun _ => 0 }
+                       toRun := fun _ => [0, 1], stubSets := fun _ => 0,
+                       gc := fun _ => false, gcInst := 99 }
     let evs : List Ev := [.begin 0, .acquire 0, .launch 0, .tryLock 0 1, .getOps 0 1, .fetch 0 1, .parse 0 1,
       .status 0 1, .done 0 1, .acquire 0, .launch 0, .tryLock 0 0, .getOps 0 0, .fetch 0 0, .parse 0 0, .store 0 0,
       .status 0 0, .done 0 0, .wait 0, .drained 0]
